@@ -153,7 +153,8 @@ fn main() {
         dagrepo::use_scratch(&ctx.scratch);
         let settings = dagrepo::settings();
         let smalls = small_shapes();
-        for i in ctx.indices() {
+        let smalls = &smalls;
+        let results = dagrepo::par_cases(&*ctx, |ctx, i| -> dagrepo::CaseOut {
             let mut rng = ctx.rng(i);
             let thorough = ctx.tier == "thorough";
             // 2 exhaustive cases per small shape: range = all but the root commit / with it
@@ -327,8 +328,9 @@ fn main() {
                         if linear { "chain " } else { "" },
                         if multi { "multi-culprit" } else { "" },
                     );
+                    let mut counts: Vec<&'static str> = vec![];
                     for r in &runs {
-                        ctx.count(if !r.monotone {
+                        counts.push(if !r.monotone {
                             "run: inconsistent outcome"
                         } else if r.skips > 0 {
                             "run: with skips"
@@ -339,13 +341,32 @@ fn main() {
                         });
                     }
                     let _ = (skips, garbage);
-                    ctx.emit(i, term, range.len() >= 3 && evals >= 2, shape_s.trim());
+                    dagrepo::CaseOut {
+                        term,
+                        nontrivial: range.len() >= 3 && evals >= 2,
+                        // run classes ride along after a tab and are counted by the main thread
+                        shape: format!("{}\t{}", shape_s.trim(), counts.join("\t")),
+                        panicked: false,
+                    }
                 }
-                None => {
-                    ctx.panicked();
-                    ctx.emit(i, "(mk_case [] [] [] true)".to_string(), false, "panic");
-                }
+                None => dagrepo::CaseOut {
+                    term: "(mk_case [] [] [] true)".to_string(),
+                    nontrivial: false,
+                    shape: "panic".to_string(),
+                    panicked: true,
+                },
             }
+        });
+        for (i, r) in results {
+            if r.panicked {
+                ctx.panicked();
+            }
+            let mut parts = r.shape.split('\t');
+            let shape = parts.next().unwrap().to_string();
+            for c in parts {
+                ctx.count(c);
+            }
+            ctx.emit(i, r.term, r.nontrivial, &shape);
         }
     });
 }
